@@ -16,6 +16,7 @@ UNWRAP = [
 PARTIAL = {
     r"^core::slice::index::<impl core::ops::index::Index(Mut)?<I> for \[T\]>::index(_mut)?$": "slice_index",
     r"^<alloc::vec::Vec<T, A> as core::ops::index::Index(Mut)?<I>>::index(_mut)?$": "slice_index",
+    r"^core::array::<impl core::ops::index::Index(Mut)?<I> for \[T; N\]>::index(_mut)?$": "slice_index",
     r"^core::str::traits::<impl core::ops::index::Index<I> for str>::index$": "str_index",
     r"^<alloc::string::String as core::ops::index::Index<I>>::index$": "str_index",
     r"^core::slice::<impl \[T\]>::copy_from_slice$": "copy_from_slice",
